@@ -85,7 +85,22 @@ func (self *ObjectCursor[T]) EvalDatetime(name string) *time.Time {
 }
 
 func (self *ObjectCursor[T]) IsNil(name string) bool {
-	return nil == self.eval(name)
+	// symbols return typed pointers wrapped in an interface, so a plain nil comparison is never true
+	switch val := self.eval(name).(type) {
+	case nil:
+		return true
+	case *bool:
+		return val == nil
+	case *string:
+		return val == nil
+	case *int64:
+		return val == nil
+	case *float64:
+		return val == nil
+	case *time.Time:
+		return val == nil
+	}
+	return false
 }
 
 func (self *ObjectCursor[T]) OpenSetCursor(name string) ast.SetCursor {
